@@ -10,74 +10,121 @@
 (*   poolAwait  the await goroutine (awaitRun): all instances finished ->  *)
 (*              runCancel -> aggregator awaited -> wait group Done         *)
 (*   instances  R goroutines, M reports each; an instance that is shooting *)
-(*              when the run context is cancelled still reports that shot  *)
-(*   aggregator the Run loop of Aggregator.tla on counters                 *)
-(*   Exit       os.Exit / return of main: freezes every other process      *)
+(*              when the run context is cancelled still reports that shot; *)
+(*              a blocking Report (phout, log) on a full queue parks the   *)
+(*              instance ("blocked") until the aggregator takes a sample - *)
+(*              for ever once the aggregator has left its drain loop       *)
+(*   aggregator the Run loop of Aggregator.tla on counters; a write to a   *)
+(*              slow sink is two steps (FlushBegin / FlushEnd): while it   *)
+(*              lasts the Run goroutine does nothing else (back-pressure:  *)
+(*              the queue fills up) and the last line on disk may be torn  *)
+(*   Exit       os.Exit / return of main / death by signal: freezes every  *)
+(*              other process                                              *)
 (*                                                                         *)
 (* Contexts: root (cancelled by gracefulShutdown) > engine (also cancelled *)
 (* when Engine.Run returns) > pool (also when pool.Run returns) > run      *)
 (* (also by runCancel).  Instances and the aggregator run on `run`:        *)
 (* `rdone` is "run context done".                                          *)
 (*                                                                         *)
+(* Signals, as cli.go treats them:                                         *)
+(*   SIGINT / SIGTERM after signal.Notify  -> Signal1: log, cancel the     *)
+(*        root context, wait for Engine.Run's result and then for          *)
+(*        Engine.Wait() under the interrupt timeout (30 s / 3 s)           *)
+(*   a SECOND SIGINT/SIGTERM while waiting -> "Another signal received",   *)
+(*        log.Fatal = exit at once                            (forced)     *)
+(*   the interrupt timeout, the 3 s timer of the error path   (forced)     *)
+(*   SIGINT / SIGTERM BEFORE signal.Notify is installed (main is between   *)
+(*        `go runEngine` and awaitPandoraTermination): default action, the *)
+(*        process dies on the spot                     (forced, "early")   *)
+(*   SIGHUP, SIGQUIT (and SIGKILL): never passed to signal.Notify: default *)
+(*        action at any moment                      (forced, "untrapped")  *)
+(* THE rule (ExitComplete): result data may be missing at exit ONLY after  *)
+(* one of these four forced causes; every other exit - normal end, failed  *)
+(* run, one SIGINT/SIGTERM at any moment, also a first signal that arrives *)
+(* while the tasks of a failed run are awaited - leaves a flushed, closed, *)
+(* complete result.  A forced exit still invents nothing (ForcedBounded).  *)
+(*                                                                         *)
 (* WaitOnSignal = FALSE is the code as found (after a signal, main takes   *)
 (* Engine.Run's immediate ctx.Err() from `errs` and calls log.Fatal ->     *)
 (* os.Exit, racing the aggregator's drain/flush/close);  TRUE is the fix   *)
 (* (main waits for Engine.Wait(), bounded by the interrupt timeout).       *)
-(* A second signal and the timeouts are *forced* exits: by design they do  *)
-(* not wait, the invariant exempts them.  In the ERROR path (the engine    *)
-(* failed on its own, main awaits the started tasks) signals are not read  *)
-(* at all: a first signal there must not end the process either.           *)
+(* In the ERROR path (the engine failed on its own, main awaits the        *)
+(* started tasks) signals are not read at all: a first signal there must   *)
+(* not end the process either.                                             *)
 (***************************************************************************)
 EXTENDS Phout
 
 CONSTANTS R, M, Q, Mode, WaitOnSignal, MaxSignals, MayFail,
-          ErrWaitSignalExits   \* TRUE: a signal that arrives while main awaits the tasks of a FAILED run exits at once
+          ErrWaitSignalExits,  \* TRUE: a signal that arrives while main awaits the tasks of a FAILED run exits at once
                                \* (seeded regression C06-6: the shared helper treats it as "another signal")
+          Untrapped,           \* TRUE: SIGHUP / SIGQUIT / SIGKILL may arrive (default action at any moment)
+          SlowSink,            \* TRUE: a write to the sink may take time (FlushBegin .. FlushEnd) or never end
+          Timeouts,            \* TRUE: the interrupt timeout / the 3 s timer of the error path exist (FALSE: negative control)
+          Exempt               \* causes of an exit that are allowed to lose data: {"second", "timeout", "early", "untrapped"};
+                               \* a smaller set is a negative control (that cause really does lose data)
 
-VARIABLES mpc,      \* main: "await" | "sigwait" | "sigjoin" | "errwait" | "exited"
-          sigs,     \* signals delivered so far
+VARIABLES mpc,      \* main: "start" (signal.Notify not yet called) | "await" | "sigwait" | "sigjoin" | "errwait" | "exited"
+          sigs,     \* SIGINT/SIGTERM delivered so far
           root,     \* root context cancelled (gracefulShutdown called)
           epc, errv,\* Engine.Run: "run" | "ret" (blocked in errs <- v) | "sent";  v: "none"|"nil"|"ctx"|"err"
           ppc, pres,\* pool.Run:   "run" | "ret";  result "none"|"nil"|"ctx"|"err"
           wpc,      \* await goroutine: "await" | "cancelled" (runCancel called) | "done" (wg.Done)
           failed,   \* the one component error of this run was raised
           rdone,    \* run context done
-          ipc, made, late,   \* instances: "run"|"fin", reports made, made its in-flight report after rdone
+          ipc, made, late,   \* instances: "run"|"blocked"|"fin", reports made, made its in-flight report after rdone
           nq, nb, nd, dropped, apc, closed, result,   \* aggregator (counters), as in Aggregator.tla
+          flushing, \* the Run goroutine is inside a write to the sink: part of it is on disk, the last line may be torn
           stopCount,\* reports that had returned when the run context became done
           lateLost, \* reports made after the stop that arrived after the drain loop had ended
-          exited, forced
+          exited, forced,
+          cause     \* why the exit was forced: "" | "second" | "timeout" | "early" | "untrapped"
 
 vars == <<mpc, sigs, root, epc, errv, ppc, pres, wpc, failed, rdone, ipc, made, late,
-          nq, nb, nd, dropped, apc, closed, result, stopCount, lateLost, exited, forced>>
+          nq, nb, nd, dropped, apc, closed, result, flushing, stopCount, lateLost, exited, forced, cause>>
 
 I == 1..R
 RECURSIVE Sum(_, _)
 Sum(f, S) == IF S = {} THEN 0 ELSE LET x == CHOOSE y \in S : TRUE IN f[x] + Sum(f, S \ {x})
 Total == Sum(made, I)
 
-Init == /\ mpc = "await" /\ sigs = 0 /\ root = FALSE
+Init == /\ mpc = "start" /\ sigs = 0 /\ root = FALSE
         /\ epc = "run" /\ errv = "none" /\ ppc = "run" /\ pres = "none"
         /\ wpc = "await" /\ failed = FALSE /\ rdone = FALSE
         /\ ipc = [i \in I |-> "run"] /\ made = [i \in I |-> 0] /\ late = [i \in I |-> FALSE]
         /\ nq = 0 /\ nb = 0 /\ nd = 0 /\ dropped = 0 /\ apc = "loop" /\ closed = FALSE /\ result = -1
-        /\ stopCount = -1 /\ lateLost = 0 /\ exited = FALSE /\ forced = FALSE
+        /\ flushing = FALSE
+        /\ stopCount = -1 /\ lateLost = 0 /\ exited = FALSE /\ forced = FALSE /\ cause = ""
 
 \* the run context becomes done (first cause wins): remember how many reports had returned
 Stop == /\ rdone' = TRUE
         /\ stopCount' = IF rdone THEN stopCount ELSE Total
 
-mainV == <<mpc, sigs, root, exited, forced>>
+mainV == <<mpc, sigs, root, exited, forced, cause>>
 engV  == <<epc, errv>>
 poolV == <<ppc, pres>>
 instV == <<ipc, made, late>>
-aggV  == <<nq, nb, nd, dropped, apc, closed, result>>
+aggV  == <<nq, nb, nd, dropped, apc, closed, result, flushing>>
+
+\* the process ends without waiting for anybody
+Die(why) == /\ mpc' = "exited" /\ exited' = TRUE /\ forced' = TRUE /\ cause' = why
 
 (* ------------------------------------------------------------------ main *)
+\* awaitPandoraTermination installs the handler (the engine goroutine was started just before)
+Notify == /\ ~exited /\ mpc = "start"
+          /\ mpc' = "await"
+          /\ UNCHANGED <<sigs, root, exited, forced, cause, engV, poolV, wpc, failed, rdone, stopCount, instV, aggV, lateLost>>
+\* SIGINT/SIGTERM before that: nobody is notified, the runtime's default action kills the process
+EarlySignal == /\ ~exited /\ mpc = "start" /\ sigs = 0 /\ MaxSignals >= 1
+               /\ sigs' = 1 /\ Die("early")
+               /\ UNCHANGED <<root, engV, poolV, wpc, failed, rdone, stopCount, instV, aggV, lateLost>>
+\* SIGHUP / SIGQUIT / SIGKILL: not in signal.Notify's list - default action, whenever
+UntrappedSignal == /\ ~exited /\ Untrapped
+                   /\ Die("untrapped")
+                   /\ UNCHANGED <<sigs, root, engV, poolV, wpc, failed, rdone, stopCount, instV, aggV, lateLost>>
 \* first SIGINT/SIGTERM: the handler logs and calls gracefulShutdown() = cancel of the root context
 Signal1 == /\ ~exited /\ mpc = "await" /\ sigs = 0 /\ MaxSignals >= 1
            /\ sigs' = 1 /\ mpc' = "sigwait" /\ root' = TRUE /\ Stop
-           /\ UNCHANGED <<exited, forced, engV, poolV, wpc, failed, instV, aggV, lateLost>>
+           /\ UNCHANGED <<exited, forced, cause, engV, poolV, wpc, failed, instV, aggV, lateLost>>
 \* main receives Engine.Run's result
 RecvErr == /\ ~exited /\ epc = "ret" /\ mpc \in {"await", "sigwait"}
            /\ epc' = "sent"
@@ -89,28 +136,33 @@ RecvErr == /\ ~exited /\ epc = "ret" /\ mpc \in {"await", "sigwait"}
                  /\ IF WaitOnSignal THEN mpc' = "sigjoin" /\ UNCHANGED exited
                                     ELSE mpc' = "exited" /\ exited' = TRUE
                  /\ UNCHANGED <<root, rdone, stopCount>>
-           /\ UNCHANGED <<sigs, forced, errv, poolV, wpc, failed, instV, aggV, lateLost>>
+           /\ UNCHANGED <<sigs, forced, cause, errv, poolV, wpc, failed, instV, aggV, lateLost>>
 \* Engine.Wait() returned
 Joined == /\ ~exited /\ mpc \in {"sigjoin", "errwait"} /\ wpc = "done"
           /\ mpc' = "exited" /\ exited' = TRUE
-          /\ UNCHANGED <<sigs, root, forced, engV, poolV, wpc, failed, rdone, stopCount, instV, aggV, lateLost>>
-\* second signal, interrupt timeout, await timeout: exit at once (by design)
-Forced == /\ ~exited /\ mpc \in {"sigwait", "sigjoin", "errwait"}
-          /\ \/ mpc = "errwait" /\ UNCHANGED sigs
-             \/ mpc # "errwait" /\ sigs < MaxSignals /\ sigs' = sigs + 1
-             \/ mpc # "errwait" /\ UNCHANGED sigs
-          /\ mpc' = "exited" /\ exited' = TRUE /\ forced' = TRUE
-          /\ UNCHANGED <<root, engV, poolV, wpc, failed, rdone, stopCount, instV, aggV, lateLost>>
+          /\ UNCHANGED <<sigs, root, forced, cause, engV, poolV, wpc, failed, rdone, stopCount, instV, aggV, lateLost>>
+\* a second SIGINT/SIGTERM while main waits after the first: "Another signal received. Quiting."
+SecondSignal == /\ ~exited /\ mpc \in {"sigwait", "sigjoin"} /\ sigs < MaxSignals
+                /\ sigs' = sigs + 1 /\ Die("second")
+                /\ UNCHANGED <<root, engV, poolV, wpc, failed, rdone, stopCount, instV, aggV, lateLost>>
+\* "Interrupt timeout exceeded" (30 s after SIGINT, 3 s after SIGTERM)
+InterruptTimeout == /\ ~exited /\ Timeouts /\ mpc \in {"sigwait", "sigjoin"}
+                    /\ Die("timeout")
+                    /\ UNCHANGED <<sigs, root, engV, poolV, wpc, failed, rdone, stopCount, instV, aggV, lateLost>>
+\* "Engine tasks timeout exceeded." (time.AfterFunc(3 s) of the error path)
+TasksTimeout == /\ ~exited /\ Timeouts /\ mpc = "errwait"
+                /\ Die("timeout")
+                /\ UNCHANGED <<sigs, root, engV, poolV, wpc, failed, rdone, stopCount, instV, aggV, lateLost>>
 
 \* error path of awaitPandoraTermination: the engine failed on its own, main has cancelled and is in
 \* pandora.Wait() under a 3 s timer.  A FIRST signal that arrives now only lands in the `sigs` channel: nobody
 \* reads it, the flush of the other tasks completes.  (Signal first, engine error afterwards is Signal1 ->
-\* RecvErr -> "sigjoin"; a second signal there is Forced.)
+\* RecvErr -> "sigjoin"; a second signal there is SecondSignal.)
 SignalWhileAwaitingTasks ==
     /\ ~exited /\ mpc = "errwait" /\ sigs < MaxSignals
     /\ sigs' = sigs + 1
     /\ IF ErrWaitSignalExits THEN mpc' = "exited" /\ exited' = TRUE ELSE UNCHANGED <<mpc, exited>>
-    /\ UNCHANGED <<root, forced, engV, poolV, wpc, failed, rdone, stopCount, instV, aggV, lateLost>>
+    /\ UNCHANGED <<root, forced, cause, engV, poolV, wpc, failed, rdone, stopCount, instV, aggV, lateLost>>
 
 (* ------------------------------------------------------------------ Engine.Run, pool.Run *)
 EngineReturn ==
@@ -143,9 +195,8 @@ AwaitDone == /\ ~exited /\ wpc = "cancelled" /\ apc = "done"
              /\ UNCHANGED <<mainV, engV, poolV, failed, rdone, stopCount, instV, aggV, lateLost>>
 
 (* ------------------------------------------------------------------ instances *)
-Report(i) ==
-    /\ ~exited /\ ipc[i] = "run" /\ made[i] < M
-    /\ ~rdone \/ ~late[i]                       \* after the stop: at most the shot in flight
+\* the sample of instance i goes into the queue (or is dropped): the Report call returns
+Enqueue(i) ==
     /\ late' = [late EXCEPT ![i] = rdone]
     /\ made' = [made EXCEPT ![i] = @ + 1]
     /\ \/ /\ nq < Q /\ nq' = nq + 1
@@ -154,59 +205,112 @@ Report(i) ==
        \/ /\ Mode = "drop" /\ nq >= Q /\ UNCHANGED nq
           /\ IF result = -1 THEN dropped' = dropped + 1 /\ UNCHANGED lateLost
                             ELSE lateLost' = lateLost + 1 /\ UNCHANGED dropped
-    /\ UNCHANGED <<mainV, engV, poolV, wpc, failed, rdone, stopCount, ipc, nb, nd, apc, closed, result>>
+Report(i) ==
+    /\ ~exited /\ ipc[i] = "run" /\ made[i] < M
+    /\ ~rdone \/ ~late[i]                       \* after the stop: at most the shot in flight
+    /\ Enqueue(i)
+    /\ UNCHANGED <<mainV, engV, poolV, wpc, failed, rdone, stopCount, ipc, nb, nd, apc, closed, result, flushing>>
+\* blocking Report on a full queue: the instance is parked in the channel send
+ReportBlocks(i) ==
+    /\ ~exited /\ Mode = "block" /\ ipc[i] = "run" /\ made[i] < M /\ nq >= Q
+    /\ ~rdone \/ ~late[i]
+    /\ ipc' = [ipc EXCEPT ![i] = "blocked"]
+    /\ UNCHANGED <<mainV, engV, poolV, wpc, failed, rdone, stopCount, made, late, aggV, lateLost>>
+Unblock(i) ==
+    /\ ~exited /\ ipc[i] = "blocked" /\ nq < Q
+    /\ Enqueue(i)
+    /\ ipc' = [ipc EXCEPT ![i] = "run"]
+    /\ UNCHANGED <<mainV, engV, poolV, wpc, failed, rdone, stopCount, nb, nd, apc, closed, result, flushing>>
 Finish(i) == /\ ~exited /\ ipc[i] = "run" /\ (made[i] = M \/ rdone)
              /\ ipc' = [ipc EXCEPT ![i] = "fin"]
              /\ UNCHANGED <<mainV, engV, poolV, wpc, failed, rdone, stopCount, made, late, aggV, lateLost>>
 
 (* ------------------------------------------------------------------ aggregator (Aggregator.tla on counters) *)
+\* while a write to the sink lasts the Run goroutine does nothing else
 aggFrame == ~exited /\ UNCHANGED <<mainV, engV, poolV, wpc, failed, rdone, stopCount, instV, lateLost>>
-Dequeue    == apc \in {"loop", "drain"} /\ nq > 0 /\ nq' = nq - 1 /\ nb' = nb + 1
-              /\ UNCHANGED <<nd, dropped, apc, closed, result>> /\ aggFrame
-Flush      == apc \in {"loop", "drain"} /\ nb > 0 /\ nd' = nd + nb /\ nb' = 0
+Dequeue    == ~flushing /\ apc \in {"loop", "drain"} /\ nq > 0 /\ nq' = nq - 1 /\ nb' = nb + 1
+              /\ UNCHANGED <<nd, dropped, apc, closed, result, flushing>> /\ aggFrame
+Flush      == ~flushing /\ apc \in {"loop", "drain"} /\ nb > 0 /\ nd' = nd + nb /\ nb' = 0
+              /\ UNCHANGED <<nq, dropped, apc, closed, result, flushing>> /\ aggFrame
+SeeDone    == ~flushing /\ apc = "loop" /\ rdone /\ apc' = "drain"
+              /\ UNCHANGED <<nq, nb, nd, dropped, closed, result, flushing>> /\ aggFrame
+DrainEnd   == ~flushing /\ apc = "drain" /\ nq = 0 /\ apc' = "flush"
+              /\ UNCHANGED <<nq, nb, nd, dropped, closed, result, flushing>> /\ aggFrame
+FinalFlush == ~flushing /\ apc = "flush" /\ nd' = nd + nb /\ nb' = 0 /\ apc' = "close"
+              /\ UNCHANGED <<nq, dropped, closed, result, flushing>> /\ aggFrame
+\* a slow sink: some whole lines and a piece of the next are on disk, the rest follows - or never does
+FlushBegin == /\ SlowSink /\ ~flushing /\ apc \in {"loop", "drain", "flush"} /\ nb > 0
+              /\ \E k \in 0..(nb - 1) : nd' = nd + k /\ nb' = nb - k
+              /\ flushing' = TRUE
               /\ UNCHANGED <<nq, dropped, apc, closed, result>> /\ aggFrame
-SeeDone    == apc = "loop" /\ rdone /\ apc' = "drain"
-              /\ UNCHANGED <<nq, nb, nd, dropped, closed, result>> /\ aggFrame
-DrainEnd   == apc = "drain" /\ nq = 0 /\ apc' = "flush"
-              /\ UNCHANGED <<nq, nb, nd, dropped, closed, result>> /\ aggFrame
-FinalFlush == apc = "flush" /\ nd' = nd + nb /\ nb' = 0 /\ apc' = "close"
+FlushEnd   == /\ flushing /\ nd' = nd + nb /\ nb' = 0 /\ flushing' = FALSE
+              /\ apc' = IF apc = "flush" THEN "close" ELSE apc
               /\ UNCHANGED <<nq, dropped, closed, result>> /\ aggFrame
-Close      == apc = "close" /\ closed' = TRUE /\ apc' = "ret"
-              /\ UNCHANGED <<nq, nb, nd, dropped, result>> /\ aggFrame
-Return     == apc = "ret" /\ result' = dropped /\ apc' = "done"
-              /\ UNCHANGED <<nq, nb, nd, dropped, closed>> /\ aggFrame
-AggStep == Dequeue \/ Flush \/ SeeDone \/ DrainEnd \/ FinalFlush \/ Close \/ Return
+Close      == ~flushing /\ apc = "close" /\ closed' = TRUE /\ apc' = "ret"
+              /\ UNCHANGED <<nq, nb, nd, dropped, result, flushing>> /\ aggFrame
+Return     == ~flushing /\ apc = "ret" /\ result' = dropped /\ apc' = "done"
+              /\ UNCHANGED <<nq, nb, nd, dropped, closed, flushing>> /\ aggFrame
+AggStep == Dequeue \/ Flush \/ SeeDone \/ DrainEnd \/ FinalFlush \/ FlushBegin \/ FlushEnd \/ Close \/ Return
 
 \* Exit freezes everything: every action is guarded by ~exited (kept inside the actions so that TLC's
 \* coverage reports them separately)
-Next == \/ Signal1 \/ RecvErr \/ Joined \/ Forced \/ SignalWhileAwaitingTasks
+Next == \/ Notify \/ EarlySignal \/ UntrappedSignal
+        \/ Signal1 \/ RecvErr \/ Joined \/ SecondSignal \/ InterruptTimeout \/ TasksTimeout \/ SignalWhileAwaitingTasks
         \/ EngineReturn \/ PoolReturn
         \/ FailDelivered \/ FailSuppressed \/ AllFinished \/ AwaitDone
         \/ \E i \in I : Report(i)
+        \/ \E i \in I : ReportBlocks(i)
+        \/ \E i \in I : Unblock(i)
         \/ \E i \in I : Finish(i)
-        \/ Dequeue \/ Flush \/ SeeDone \/ DrainEnd \/ FinalFlush \/ Close \/ Return
+        \/ Dequeue \/ Flush \/ SeeDone \/ DrainEnd \/ FinalFlush \/ FlushBegin \/ FlushEnd \/ Close \/ Return
 
 Spec == Init /\ [][Next]_vars
 
+\* everything the program does by itself is weakly fair; signals, failures and the END of a slow write are not
+\* (a sink may block for ever); the timers are
+System == \/ Notify \/ RecvErr \/ Joined \/ EngineReturn \/ PoolReturn \/ AllFinished \/ AwaitDone
+          \/ (\E i \in I : Report(i) \/ ReportBlocks(i) \/ Unblock(i) \/ Finish(i))
+          \/ Dequeue \/ Flush \/ SeeDone \/ DrainEnd \/ FinalFlush \/ Close \/ Return
+LiveSpec == /\ Init /\ [][Next]_vars
+            /\ WF_vars(Notify) /\ WF_vars(RecvErr) /\ WF_vars(Joined) /\ WF_vars(EngineReturn) /\ WF_vars(PoolReturn)
+            /\ WF_vars(AllFinished) /\ WF_vars(AwaitDone)
+            /\ \A i \in I : WF_vars(Finish(i)) /\ WF_vars(Unblock(i)) /\ WF_vars(Report(i) \/ ReportBlocks(i))
+            /\ WF_vars(Dequeue) /\ WF_vars(SeeDone) /\ WF_vars(DrainEnd) /\ WF_vars(FinalFlush) /\ WF_vars(Close) /\ WF_vars(Return)
+            /\ WF_vars(InterruptTimeout) /\ WF_vars(TasksTimeout)
+
 (* ------------------------------------------------------------------ properties *)
-TypeOK == /\ mpc \in {"await", "sigwait", "sigjoin", "errwait", "exited"}
+TypeOK == /\ mpc \in {"start", "await", "sigwait", "sigjoin", "errwait", "exited"}
           /\ nq \in 0..Q /\ nb >= 0 /\ nd >= 0 /\ result \in -1..(R * M)
           /\ exited = (mpc = "exited")
+          /\ cause \in {"", "second", "timeout", "early", "untrapped"}
+          /\ forced = (cause # "")
+          /\ \A i \in I : ipc[i] \in {"run", "blocked", "fin"}
 
-\* THE property: an exit that is not forced leaves a flushed, closed result in which
+\* THE property: an exit leaves a flushed, closed result with a whole last line in which
 \* lines + counted drops = reports made until the stop (+ the in-flight ones that still made it)
+\* - unless it was forced by one of the exempt causes
 ExitComplete ==
-    (exited /\ ~forced) =>
-        /\ apc = "done" /\ closed /\ nb = 0
+    (exited /\ cause \notin Exempt) =>
+        /\ apc = "done" /\ closed /\ nb = 0 /\ ~flushing
         /\ CompleteCounts(nd, result, Total - lateLost)
         /\ CompleteBetween(nd, result, stopCount, Total)
+\* a forced exit may cut the result anywhere, but it invents nothing: what is on disk (and counted as dropped, if
+\* the aggregator got that far) are reports that were made
+ForcedBounded == exited => nd + nb + nq + dropped <= Total /\ nd + (IF result >= 0 THEN result ELSE 0) <= Total
 \* a run that ends by itself (no signal, no failure) loses nothing at all
-NormalEndExact == (exited /\ sigs = 0 /\ ~failed) => CompleteCounts(nd, result, Total) /\ lateLost = 0
+NormalEndExact == (exited /\ ~forced /\ sigs = 0 /\ ~failed) => CompleteCounts(nd, result, Total) /\ lateLost = 0
 \* after the stop every instance reports at most the shot it has in flight
 LateBounded == lateLost <= R /\ (stopCount >= 0 => Total - stopCount <= R)
 \* engine guarantee used by Aggregator.tla: without an external stop the aggregator is cancelled
 \* only after the last report
 CancelAfterLastReport == (rdone /\ ~root /\ ppc = "run" /\ epc = "run") => \A i \in I : ipc[i] = "fin"
+\* back-pressure never loses what a blocking aggregator accepted: a parked instance has not reported yet
+BlockedIsNotReported == \A i \in I : ipc[i] = "blocked" => (Mode = "block" /\ made[i] < M)
 \* some run does exit unforced after a signal (the invariant is not vacuous)
 SignalExitReachable == ~(exited /\ ~forced /\ sigs = 1 /\ Total = R * M /\ nd = R * M)
+\* ... also one whose instance was parked in a blocking Report during a slow write when the signal came
+BackPressureExitReachable == ~(exited /\ ~forced /\ sigs = 1 /\ nd = R * M /\ lateLost = 0 /\ stopCount < R * M)
+\* once pandora was told to stop (or its run has failed) the process ends - thanks to the timers also when a sink
+\* blocks for ever or an instance is parked for ever in a blocking Report after the aggregator has returned
+EventuallyExits == (mpc \in {"sigwait", "sigjoin", "errwait"}) ~> exited
 =============================================================================
